@@ -9,7 +9,7 @@
     32-byte seed: whenever key generation returns, it returns exactly the specification's key pair with the standard sizes and
     draws nothing; the specification defines a function of the seed; unseeded generation is that function of the 32 bytes
     drawn; key generation never panics (no overflow / out-of-bounds). *)
-From DV Require Import Base MReduce MParams MPoly MPolyvec MSign MApi PSample PBridge PTape PContainer PRing PKeygen.
+From DV Require Import Base MReduce MParams MPoly MPolyvec MSign MApi PSample PBridge PTape PContainer PRing PKeygen PBuffers.
 
 Theorem C04_keygen_is_the_specification : forall (P : params) (xi pk0 sk0 tape pk sk tape' : list Z),
   std P -> Forall is_byte xi -> zlen xi = 32 -> zlen pk0 = pPK P -> zlen sk0 = pSK P ->
@@ -101,3 +101,14 @@ Theorem C04_standard_sizes :
   (pSK P_ml87, pPK P_ml87, pSIG P_ml87) = (4896, 2592, 4627).
 Proof. exact container_sizes. Qed.
 Print Assumptions C04_standard_sizes.
+
+(** ... and for caller buffers LONGER than the standard sizes (the slice API asks for "at least"): the same key pair in the
+    standard-size prefix, the excess bytes untouched (so everything above transfers to any admissible buffers) *)
+Theorem C04_overlong_buffers :
+  forall (P : params) (pk sk : list Z) (seed : option (list Z)) (tape : list Z),
+  std P -> pPK P <= zlen pk -> pSK P <= zlen sk ->
+  keypair P pk sk seed tape =
+  (do '(pk', sk', t) <- keypair P (firstn (Z.to_nat (pPK P)) pk) (firstn (Z.to_nat (pSK P)) sk) seed tape;
+   Ok (pk' ++ skipn (Z.to_nat (pPK P)) pk, sk' ++ skipn (Z.to_nat (pSK P)) sk, t)).
+Proof. exact keypair_long_buffers. Qed.
+Print Assumptions C04_overlong_buffers.
